@@ -17,6 +17,7 @@ from __future__ import annotations
 
 import copy as _copy
 import datetime
+import re
 import sys
 from pathlib import Path
 
@@ -1144,6 +1145,131 @@ def object_histories(run: Run) -> None:
                 break
 
 
+# ------------------------------------------- structural scan (translator) and its search
+def translate(run: Run) -> dict:
+    """regenerate lean/EPV/Gen/C05Sites.lean from the live package; returns the scanned tables and, computed on the
+    Python side only to LOCATE what a failing `decide` is about, the sites that are not in the reviewed lists"""
+    from harness import c05_sites
+    from harness.common import REPO, LEAN
+    info = c05_sites.emit(REPO, LEAN)
+    spec = (LEAN / 'EPV' / 'Spec' / 'PuritySites.lean').read_text()
+    triples = set(re.findall(r'\("([^"]*)", "([^"]*)", "([^"]*)"\)', spec))
+    quads = set(re.findall(r'\("([^"]*)", "([^"]*)", "([^"]*)", "([^"]*)"\)', spec))
+    builders = set(re.findall(r'"(evaluate__json_to_xml[^"]*)"', spec))
+    new_token = [t for t in info['token'] if t not in triples]
+    new_binds = [b for b in info['binds'] if b not in triples]
+    new_tree = []
+    for w in info['tree']:
+        kind, f, fn, _ = w
+        ok = (fn in builders if kind == 'element' else f in ('elementpath/tree_builders.py', 'elementpath/xpath_nodes.py')
+              if kind == 'xnode' else w in quads if kind in ('namespaces', 'variables') else False)
+        if not ok:
+            new_tree.append(w)
+    info['new'] = {'token': new_token, 'binds': new_binds, 'tree': new_tree}
+    return info
+
+
+_HARVEST = None
+
+
+def harvested_expressions():
+    """XPath expressions of the repository's own test-suite (string constants that XPath31Parser accepts)"""
+    global _HARVEST
+    if _HARVEST is None:
+        import ast
+        from harness.common import REPO
+        from elementpath.xpath31 import XPath31Parser
+        seen = set()
+        for p in sorted((REPO / 'tests').glob('test_xpath*.py')):
+            try:
+                tree = ast.parse(p.read_text())
+            except SyntaxError:
+                continue
+            for n in ast.walk(tree):
+                if isinstance(n, ast.Constant) and isinstance(n.value, str) and 2 < len(n.value) < 160 and '\n' not in n.value:
+                    seen.add(n.value)
+        out = []
+        parser = XPath31Parser(namespaces=dict(NS))
+        own = CACHE_EXPRS + [e for e, _ in ORACLE_EXPRS] + [e for es in OBJ_EXPRS.values() for e in es]
+        for e in own + sorted(seen - set(own)):
+            try:
+                out.append((e, parser.parse(e)))
+            except Exception:  # noqa
+                continue
+        _HARVEST = out
+    return _HARVEST
+
+
+def token_uses(tk, functions) -> bool:
+    for t in tk.iter():
+        for c in type(t).__mro__:
+            for f in vars(c).values():
+                f = getattr(f, '__func__', f)
+                f = getattr(f, 'fget', f) or f
+                if getattr(f, '__qualname__', None) in functions or getattr(f, '__name__', None) in functions:
+                    return True
+    return False
+
+
+def literal_variants(e: str):
+    """(expression with its first string / integer literal replaced by a variable, value A, value B): a token that caches
+    something computed from its arguments is only visible when the arguments change between evaluations"""
+    m = re.search(r"'([^']*)'|\"([^\"]*)\"", e)
+    if m:
+        lit = m.group(1) if m.group(1) is not None else m.group(2)
+        other = '<zz>1</zz>' if lit.lstrip().startswith('<') else (lit + 'x' if not lit.isdigit() else lit + '1')
+        yield e[:m.start()] + '$c05lit' + e[m.end():], lit, other
+    m = re.search(r"(?<![\w$'\"#.:-])(\d+)(?![\w'\".])", re.sub(r"'[^']*'|\"[^\"]*\"", lambda x: ' ' * len(x.group()), e))
+    if m:
+        yield e[:m.start(1)] + '$c05num' + e[m.end(1):], int(m.group(1)), int(m.group(1)) + 1
+
+
+def site_histories(run: Run, functions, limit=400):
+    """two-document histories (A, B, A, B) of every test-suite expression whose token tree contains a token class using
+    one of `functions`: the reused token must agree, step by step, with a freshly parsed expression"""
+    from elementpath import XPathContext
+    from elementpath.xpath31 import XPath31Parser
+    found = []
+    picked = [(e, tk) for e, tk in harvested_expressions() if token_uses(tk, functions)]
+    run.rng.shuffle(picked)
+    from elementpath.datatypes import DateTime
+    variables = {'v': 2, 'x': 1, 'a': 1, 'b': 2, 'var': 'abc', 'word': 'alpha', 'values': [10, 20, 5], 'n': 3,
+                 'd': DateTime.fromstring('2002-03-07T10:00:00')}
+    work = []
+    for e, tk in picked[:limit]:
+        work.append((e, tk, None))
+        for ve, a, b in literal_variants(e):
+            try:
+                vtk = XPath31Parser(namespaces=dict(NS)).parse(ve)
+            except Exception:  # noqa
+                continue
+            if token_uses(vtk, functions):
+                work.append((ve, vtk, (a, b)))
+    for e, tk, var in work:
+        for k, d in enumerate([0, 3, 0, 2, 3]):
+            if var is not None:
+                variables = dict(variables)
+                variables['c05lit' if isinstance(var[0], str) else 'c05num'] = var[k % 2]
+            def g(f):
+                try:
+                    return canon_any(f())
+                except RecursionError as ex:
+                    return canon_error(ex)
+                except Exception as ex:  # noqa
+                    return canon_error(ex)
+            got = g(lambda: tk.get_results(XPathContext(make_doc(d)[0], namespaces=dict(NS), variables=dict(variables))))
+            fresh = g(lambda: XPath31Parser(namespaces=dict(NS)).parse(e).get_results(
+                XPathContext(make_doc(d)[0], namespaces=dict(NS), variables=dict(variables))))
+            if got != fresh:
+                found.append(Disagreement({'xpath': e, 'documents': [DOCS[x][1] for x in [0, 3, 0, 2, 3][:k + 1]],
+                                           'site_functions': sorted(functions)}, got, None, spec=fresh,
+                                          what='reused-token-vs-fresh', site=';'.join(sorted(functions))))
+                break
+    run.notes.append(f'site search: {len(picked)} test-suite expressions use {sorted(functions)}, '
+                     f'{min(len(picked), limit)} run over 5-step two-document histories, {len(found)} differ')
+    return found
+
+
 # --------------------------------------------------------------------------- search
 def template_cases():
     """every binder kind inside every binder kind, on a name that is / is not a caller's variable, followed by a
@@ -1194,6 +1320,14 @@ def template_cases():
 def search(run: Run):
     sub = Run(PROP, run.tier, run.seed)
     sub.rng = run.rng
+    new = getattr(run, 'new_sites', None) or {}
+    funcs = {fn.split('.')[-1] if '.' not in fn else fn for _, fn, _ in new.get('token', [])} | \
+            {fn for _, fn, _ in new.get('binds', [])} | {fn for _, _, fn, _ in new.get('tree', [])}
+    funcs |= {f.split('.')[0] for f in funcs} | {f.split('.')[-1] for f in funcs}
+    if funcs:
+        found = site_histories(run, funcs)
+        if found:
+            return found
     cases = template_cases() + [gen_case(run.rng, True) for _ in range(run.scale(1500, 6000))]
     for i in range(0, len(cases), 500):
         compare(sub, cases[i:i + 500], stats=False)
@@ -1451,10 +1585,17 @@ def body(run: Run) -> int:
         'token-level caches other than the closure variables (XPathMap._map, XPathFunction._items) are exercised by '
         're-evaluation histories only',
     ]
+    info = translate(run)
+    run.new_sites = info['new']
+    run.stats.extra['structural_scan'] = {'tree_dict_schema_node_write_sites': len(info['tree']),
+                                          'variables_bind_sites': len(info['binds']),
+                                          'token_state_sites': len(info['token']),
+                                          'unreviewed': {k: [list(x) for x in v] for k, v in info['new'].items() if v}}
+    run.trusted_base.append('translator harness/c05_sites.py (syntactic, name-based ast scan of the package for write sites)')
     if getattr(run, 'replay', None):
-        run.prove(['EPV.Props.C05'], ['EPV.Spec.LexicalSem'])
+        run.prove(['EPV.Props.C05', 'EPV.Props.C05Sites'], ['EPV.Spec.LexicalSem'])
         return replay(run, run.replay)
-    run.prove(['EPV.Props.C05'], ['EPV.Spec.LexicalSem'])
+    run.prove(['EPV.Props.C05', 'EPV.Props.C05Sites'], ['EPV.Spec.LexicalSem'])
     lex = live_callee_lexical()
     run.stats.extra['live_callee_dict'] = ('closure + parameters only (F05c repaired; theorems eval_eq_sem, history_eq_sem apply)'
                                            if lex else 'caller + closure + parameters (finding F05c; eval_eq_sem_partial applies)')
@@ -1469,4 +1610,4 @@ def body(run: Run) -> int:
 
 
 if __name__ == '__main__':
-    cli(PROP, body)
+    cli(PROP, body, translate=translate)
